@@ -232,6 +232,9 @@ func (e *executor[R]) executeAsync(fn func(exec Execution[R]) (R, error), withEx
 		ctx, cancelFunc = context.WithCancel(ctx)
 	}
 	exec := newExecution[R](ctx)
+	// Let execution.Cancel cancel the context under the execution's lock, so that a cancellation result and the
+	// canceled context are always observed together
+	exec.cancelFunc = cancelFunc
 	result := &executionResult[R]{
 		execution:  exec,
 		cancelFunc: cancelFunc,
